@@ -758,6 +758,32 @@ const keyAlphabet = "abkz"
 func GenKeys(r *Rng, n int) [][]byte {
 	seen := map[string]bool{}
 	var out [][]byte
+	if n >= 4 && r.Chance(1, 3) {
+		// a family of siblings: one base key of 9..24 bytes and variants that differ from it in a
+		// single byte (by one low bit or by one) at a seed-chosen position, incl. the 7th/8th byte
+		base := make([]byte, r.Range(9, 24))
+		for i := range base {
+			base[i] = "user:0123456789:nameXY"[r.Intn(22)]
+		}
+		out = append(out, append([]byte{}, base...))
+		seen[string(base)] = true
+		for len(out) < n/2+1 {
+			k := append([]byte{}, base...)
+			p := r.Intn(len(k))
+			if r.Chance(1, 2) {
+				p = r.Range(5, 8)
+			}
+			if r.Chance(1, 2) {
+				k[p] ^= 1
+			} else {
+				k[p]++
+			}
+			if !seen[string(k)] {
+				seen[string(k)] = true
+				out = append(out, k)
+			}
+		}
+	}
 	for len(out) < n {
 		var k []byte
 		switch c := r.Intn(40); {
